@@ -34,6 +34,8 @@ structure TState where
   everStalled : List Nat := []
   /-- callbacks seen so far by monitors that were ever stalled -/
   monAcc : List (Nat × List (Ev Obj)) := []
+  /-- the action of the current round was `Refilter(id, f)` outside a burst -/
+  lastRefilter : Option (Nat × Filter) := none
 
 def lookupNat {α : Type} (k : Nat) (l : List (Nat × α)) : Option α := (l.find? (·.1 == k)).map (·.2)
 
@@ -85,7 +87,11 @@ def treeAct (st : TState) (a : SAct) : TState × String :=
     | .close id => if st.inBurst then st.loose ++ subtreeIds sys' id else st.loose
     | .closeRoot => if st.inBurst then List.range sys'.nodes.length else st.loose
     | _ => st.loose
-  ({ st with sys := sys', roundCache := [], roundEvs := [], fuzzy := fz, burstRound := st.inBurst, loose := loose }, "ok")
+  let lr := match a with
+    | .refilter id f => if st.inBurst then none else some (id, f)
+    | _ => none
+  ({ st with sys := sys', roundCache := [], roundEvs := [], fuzzy := fz, burstRound := st.inBurst, loose := loose,
+             lastRefilter := lr }, "ok")
 
 def treeLine (st : TState) (e : SExp) : TState × String :=
   match e with
@@ -163,10 +169,25 @@ def treeLine (st : TState) (e : SExp) : TState × String :=
               | some mine, some (some pc), some f =>
                 let want := pc.filter (accStd f)
                 if sameObjSet mine want then none
-                else some s!"C06/C08 {kind} node {id} holds {showObjs mine}, its filter applied to the parent's cache gives {showObjs want}"
+                else
+                  let tag := match st.lastRefilter with
+                    | some (rid, _) => if rid == id then "C06/C07/C08" else "C06/C08"
+                    | none => "C06/C08"
+                  some s!"{tag} {kind} node {id} holds {showObjs mine}, its filter applied to the parent's cache gives {showObjs want}"
               | _, _, _ => none
             else none
-          match c06 with
+          -- C07: a Refilter on a ready leaf with nothing in flight emits exactly the membership changes
+          let c07 : Option String :=
+            match st.lastRefilter, c, lookupNat id st.mirror, lookupNat parent st1.roundCache with
+            | some (rid, f), some _mine, some before, some (some pc) =>
+              if rid == id && hasEvents && !stalled && r && !d && st.stepwise then
+                let dels : List (Ev Obj) := (before.filter (fun o => !accStd f o)).map (fun o => ⟨.delete, o⟩)
+                let adds : List (Ev Obj) := (pc.filter (fun o => accStd f o && !before.contains o)).map (fun o => ⟨.create, o⟩)
+                if sameMultiset (dels ++ adds) ievs then none
+                else some s!"C07 {kind} node {id}: Refilter emitted {showEvs ievs}, the membership changes are {showEvs (dels ++ adds)}"
+              else none
+            | _, _, _, _ => none
+          match c06.orElse (fun _ => c07) with
           | some m => some m
           | none =>
             -- C02/C06: the node's own event stream is a well-formed delta of its own cache
@@ -199,17 +220,18 @@ def treeLine (st : TState) (e : SExp) : TState × String :=
       | _, some m => ({ st3 with dead := true }, "reject " ++ m)
       | none, none =>
         -- ---- model conformance
-        if mr != r && !(st.loose.contains id) then ({ st3 with dead := true }, s!"diff {kind} node {id}: Ready() is {r}, model {mr}")
-        else if md != d then ({ st3 with dead := true }, s!"diff {kind} node {id}: Done() is {d}, model {md}")
+        if mr != r && !(st.loose.contains id) then
+          ({ st3 with dead := true }, (if r then "reject C08 " else "diff ") ++ s!"{kind} node {id}: Ready() is {r}, model {mr}")
+        else if md != d then ({ st3 with dead := true }, s!"reject C11/C12 {kind} node {id}: Done() is {d}, the closed subtree says {md}")
         else if !(match mc, c with
             | some a, some b => sameObjSet a b
             | none, none => true
             | _, _ => false) then
           ({ st3 with dead := true }, s!"diff {kind} node {id}: cache is {c.map showObjs}, model {mc.map showObjs}")
         else if !(st.fuzzy.contains id) && !sameUpToBatchOrder mevs ievs then
-          ({ st3 with dead := true }, s!"diff {kind} node {id}: events {showEvs ievs}, model {showEvs mevs}")
+          ({ st3 with dead := true }, (if kind == "sub" then "reject C05/C10 " else "diff ") ++ s!"{kind} node {id}: events {showEvs ievs}, published {showEvs mevs}")
         else if hasEvents && !stalled && ec != md then
-          ({ st3 with dead := true }, s!"diff {kind} node {id}: Events() closed is {ec}, model {md}")
+          ({ st3 with dead := true }, s!"reject C11/C12 {kind} node {id}: Events() closed is {ec}, node done is {md}")
         else (st3, "ok")
     | _, _, _, _, _ => (st, "bad obs")
   | .list [.atom "monobs", .atom id, d, init, log] =>
@@ -231,18 +253,18 @@ def treeLine (st : TState) (e : SExp) : TState × String :=
             | some a, some b => sameObjSet a b
             | none, none => true
             | _, _ => false) then
-          ({ st1 with dead := true }, s!"diff mon node {id}: OnInitialize got {iinit.map showObjs}, model {n.monInit.map showObjs}")
+          ({ st1 with dead := true }, s!"reject C16 mon node {id}: OnInitialize got {iinit.map showObjs}, cache at readiness {n.monInit.map showObjs}")
         else if st.everStalled.contains id then
           -- a monitor whose handler blocked: which event of a batch it took first depends on the batch
           -- order; check that everything it was called with was published to it, each at most once
           let acc := ((lookupNat id st.monAcc).getD []) ++ ilog
           let st1 := { st1 with monAcc := setNat id acc st1.monAcc }
           if fuzzyNow || st.loose.contains id || acc.all (fun e => countEv e acc ≤ countEv e n.monAll) then
-            (if s.doneOf id != d && !(st.loose.contains id) then ({ st1 with dead := true }, s!"diff mon node {id}: Done() is {d}, model {s.doneOf id}") else (st1, "ok"))
+            (if s.doneOf id != d && !(st.loose.contains id) then ({ st1 with dead := true }, s!"reject C11/C12/C16 mon node {id}: Done() is {d}, model {s.doneOf id}") else (st1, "ok"))
           else ({ st1 with dead := true }, s!"reject C16 monitor {id}: callbacks {showEvs acc} are not a sub-multiset of the events published to it")
         else if !fuzzyNow && !(st.fuzzy.contains id) && !(st.loose.contains id) && !sameUpToBatchOrder n.monLog ilog then
-          ({ st1 with dead := true }, s!"diff mon node {id}: callbacks {showEvs ilog}, model {showEvs n.monLog}")
-        else if s.doneOf id != d then ({ st1 with dead := true }, s!"diff mon node {id}: Done() is {d}, model {s.doneOf id}")
+          ({ st1 with dead := true }, s!"reject C16 mon node {id}: callbacks {showEvs ilog}, events received {showEvs n.monLog}")
+        else if s.doneOf id != d then ({ st1 with dead := true }, s!"reject C11/C12/C16 mon node {id}: Done() is {d}, model {s.doneOf id}")
         else (st1, "ok")
     | _, _, _ => (st, "bad monobs")
   | .list (.atom "attach-error" :: _) => ({ st with dead := true }, "diff attach failed")
